@@ -633,3 +633,28 @@ Proof.
       * rewrite (I2 k r' H), P1. unfold with_seq; cbn [g_seq g_mem16 g_serial g_blocksize]. do 3 f_equal.
         rewrite N.add_mod_idemp_l by discriminate. f_equal. lia.
 Qed.
+
+(* ---------- reception terminates on every finite input (no hang) ---------- *)
+From Ufw Require Import Proof.EndpointsTotal Proof.SlipOperational.
+
+Theorem deframe_total p oct inp calls : deframe p (plain_src oct inp calls) <> None.
+Proof.
+  unfold deframe. destruct (g_serial p).
+  - destruct (slip_decode_op_plain false Normal oct inp calls [] 0) as (c' & k' & E).
+    unfold plain_snk, snk_plain in *. rewrite E. destruct (pdecode false Normal inp []) as [[[pr out] rest] st'].
+    destruct pr; discriminate.
+  - unfold lenp_decode_source_to_sink, decode_prefix.
+    destruct (vi_from_source KU64 (plain_src oct inp calls)) as [[u c| |e] s']; try discriminate.
+    pose proof (sts_n_total s' (snk_plain false) u) as T.
+    destruct (sts_n s' (snk_plain false) u) as [[[r s''] k']|]; [destruct r; discriminate|contradiction].
+Qed.
+
+Theorem recv_total p oct inp calls ok : regp_recv p (plain_src oct inp calls) ok <> None.
+Proof.
+  unfold regp_recv. pose proof (deframe_total p oct inp calls) as T.
+  destruct (deframe p (plain_src oct inp calls)) as [[[chan octets] s']|]; [|contradiction].
+  destruct chan; [discriminate|].
+  destruct (negb (length octets =? 0)%nat); cbn [negb]; [|discriminate].
+  destruct (negb ok); [discriminate|].
+  destruct (_ <? _); [discriminate|]. destruct (parse_frame octets); discriminate.
+Qed.
